@@ -41,6 +41,32 @@ def code_blocks_of(tree: list, prefix_depth=0, out=None):
 _PFX = re.compile(r"^(?:[ >]|\d+\.\s|[-*+]\s)*")
 
 
+_TAG_WORD = re.compile(r"(?:\{%.*%\}|\{\{.*\}\}|\{#.*#\}|<!--.*-->)\Z", re.S)
+
+
+def tag_words_of(tree) -> list[str]:
+    """Every word of the generated tree that is a template tag or an HTML comment, in document order (white space
+    runs collapsed). Words inside code blocks are not words of the tree (code is kept as lines)."""
+    out: list[str] = []
+
+    def walk(x, key=None):
+        if isinstance(x, dict):
+            if x.get("t") in ("fence", "icode"):
+                return
+            if x.get("t") == "tagblock":
+                walk(x["open"]), walk(x["inner"]), walk(x["close"])
+                return
+            for k, v in x.items():
+                walk(v, k)
+        elif isinstance(x, (list, tuple)):
+            for v in x:
+                walk(v, key)
+        elif isinstance(x, str) and key not in ("lines", "info", "lang") and _TAG_WORD.match(x):
+            out.append(re.sub(r"\s+", " ", x))
+    walk(tree)
+    return out
+
+
 class C04(DocProp):
     id = "C04"
     rule = ("cases: G-doc documents (profiles core, typo, tags; hostile code content: fence-like lines, prefix-like "
@@ -83,6 +109,7 @@ class C04(DocProp):
         self.feats_hist(col, feats)
         ref = spans(astn.tree(astn.reference_input(text)))
         blocks = code_blocks_of(tree) if tree else []
+        tags = tag_words_of(tree) if tree else []
         for o in case["opts"]:
             col.case()
             out = fm.fmt(text, **o)
@@ -95,6 +122,18 @@ class C04(DocProp):
                 if lit not in re.sub(r"\s+", " ", out):
                     col.violation("spans", "C04/literal-not-verbatim-in-output", sub, {"literal": lit, "output": out[:300]})
                     break
+            if tags:
+                # ground truth from the generator (no reader involved): every tag / comment word it wrote is in the output,
+                # in order, character for character up to white-space runs
+                col.mon("tagwords", len(tags))
+                flat, pos = re.sub(r"\s+", " ", out), 0
+                for tg in tags:
+                    k = flat.find(tg, pos)
+                    if k < 0:
+                        col.violation("spans", "C04/generated-tag-not-verbatim-in-output" + ("" if tg in flat else "/absent"), sub,
+                                      {"tag": tg[:200], "output": out[:300]})
+                        break
+                    pos = k + len(tg)
             got = spans(astn.tree(out))
             if ref:
                 col.distinct(case.get("seed", text), opts_key(o))
